@@ -293,6 +293,364 @@ fn sub_builders(c: &mut Case) -> CaseResult {
     Ok(())
 }
 
+/// bulk builder histories: the append_array / append_slice / append_n / append_nulls / append_block families interleaved
+/// with single appends and finish / finish_cloned, against a row model.  Source arrays for `append_array` come from the
+/// layout realiser (sliced, padded, multi-buffer views, nulls over garbage).
+fn sub_bulk_builders(c: &mut Case) -> CaseResult {
+    let which = c.tape.below(6);
+    let nops = 1 + c.tape.below(24);
+    let lay = Lay { fancy: true, dict_value_nulls: false, slice_chance: 128 };
+    let mut model: Vec<LValue> = vec![];
+    let mut finished: Vec<(ArrayRef, Vec<LValue>)> = vec![];
+    let mut ops: Vec<String> = vec![];
+    let mut bulk = 0usize;
+    let t = &mut c.tape;
+    macro_rules! fin {
+        ($b:expr, $op:expr) => {
+            match $op {
+                0 => {
+                    let a: ArrayRef = Arc::new($b.finish_cloned());
+                    finished.push((a, model.clone()));
+                    ops.push("finish_cloned".into());
+                }
+                _ => {
+                    let a: ArrayRef = Arc::new($b.finish());
+                    finished.push((a, std::mem::take(&mut model)));
+                    ops.push("finish".into());
+                }
+            }
+        };
+    }
+    let name = match which {
+        0 | 1 => {
+            // string / binary views
+            let utf8 = which == 0;
+            let ty = if utf8 { LType::Utf8(Enc::View) } else { LType::Binary(Enc::View) };
+            let name = if utf8 { "StringViewBuilder" } else { "BinaryViewBuilder" };
+            let cfg = t.below(4);
+            macro_rules! run {
+                ($B:ty, $A:ty, $mk:expr, $asref:expr) => {{
+                    let mut b: $B = <$B>::new();
+                    if cfg & 1 == 1 {
+                        b = b.with_fixed_block_size(*t.pick(&[16u32, 32, 64, 20]));
+                    }
+                    if cfg & 2 == 2 {
+                        b = b.with_deduplicate_strings();
+                    }
+                    for _ in 0..nops {
+                        match t.below(10) {
+                            0 => {
+                                b.append_null();
+                                model.push(LValue::Null);
+                                ops.push("null".into());
+                            }
+                            1 => fin!(b, t.below(2)),
+                            2 | 3 => {
+                                let n = t.below(8);
+                                let col = gen_column(t, &ty, true, n, &ValCfg::default());
+                                let a = realise(t, &ty, &col, true, &lay);
+                                let a = a.as_any().downcast_ref::<$A>().unwrap().clone();
+                                ops.push(format!("append_array(len {}, {} buffers)", a.len(), a.data_buffers().len()));
+                                b.append_array(&a);
+                                model.extend(col);
+                                bulk += 1;
+                            }
+                            4 => {
+                                // a caller-provided block and views into it
+                                let block: Vec<u8> = if utf8 { gen_string(t, 40).into_bytes() } else { gen_bytes(t, 40) };
+                                let id = b.append_block(arrow_buffer::Buffer::from_vec(block.clone()));
+                                let k = t.below(4);
+                                for _ in 0..k {
+                                    let o = t.below(block.len() + 2);
+                                    let l = t.below(block.len() + 2);
+                                    let r = b.try_append_view(id, o as u32, l as u32);
+                                    let in_range = o + l <= block.len();
+                                    let ok_utf8 = in_range && (!utf8 || std::str::from_utf8(&block[o..o + l]).is_ok());
+                                    if r.is_ok() {
+                                        ensure!(ok_utf8, format!("{}:try_append_view-accepted", name), "try_append_view({}, {}, {}) accepted over a block of {} bytes", id, o, l, block.len());
+                                        model.push($mk(&block[o..o + l]));
+                                    } else {
+                                        ensure!(!ok_utf8, format!("{}:try_append_view-rejected", name), "try_append_view({}, {}, {}) rejected a valid range of a block of {} bytes: {:?}", id, o, l, block.len(), r);
+                                    }
+                                }
+                                ops.push(format!("append_block({} bytes) + {} views", block.len(), k));
+                                bulk += 1;
+                            }
+                            5 => {
+                                let n = t.below(4);
+                                let v = if utf8 { gen_string(t, 30).into_bytes() } else { gen_bytes(t, 30) };
+                                let opt = if t.chance(200) { Some(v) } else { None };
+                                for _ in 0..n {
+                                    b.append_option(opt.as_ref().map(|v| $asref(v)));
+                                    model.push(match &opt {
+                                        Some(v) => $mk(v),
+                                        None => LValue::Null,
+                                    });
+                                }
+                                ops.push(format!("append_option x{}", n));
+                            }
+                            _ => {
+                                let v = if utf8 { gen_string(t, 40).into_bytes() } else { gen_bytes(t, 40) };
+                                b.append_value($asref(&v));
+                                model.push($mk(&v));
+                                ops.push(format!("value({})", v.len()));
+                            }
+                        }
+                    }
+                    fin!(b, 1);
+                }};
+            }
+            if utf8 {
+                run!(StringViewBuilder, StringViewArray, |x: &[u8]| LValue::Str(String::from_utf8(x.to_vec()).unwrap()), |v: &Vec<u8>| std::str::from_utf8(v).unwrap().to_string());
+            } else {
+                run!(BinaryViewBuilder, BinaryViewArray, |x: &[u8]| LValue::Bytes(x.to_vec()), |v: &Vec<u8>| v.clone());
+            }
+            name
+        }
+        2 => {
+            let ty = LType::Int { bits: 32, signed: true };
+            let mut b = Int32Builder::new();
+            for _ in 0..nops {
+                match t.below(10) {
+                    0 => {
+                        let n = t.below(70);
+                        b.append_nulls(n);
+                        model.extend(std::iter::repeat(LValue::Null).take(n));
+                        ops.push(format!("append_nulls({})", n));
+                        bulk += 1;
+                    }
+                    1 => fin!(b, t.below(2)),
+                    2 => {
+                        let n = t.below(70);
+                        let v = t.u32() as i32;
+                        b.append_value_n(v, n);
+                        model.extend(std::iter::repeat(LValue::Int(v as i128)).take(n));
+                        ops.push(format!("append_value_n({})", n));
+                        bulk += 1;
+                    }
+                    3 => {
+                        let n = t.below(20);
+                        let v: Vec<i32> = (0..n).map(|_| t.u32() as i32).collect();
+                        b.append_slice(&v);
+                        model.extend(v.iter().map(|x| LValue::Int(*x as i128)));
+                        ops.push(format!("append_slice({})", n));
+                        bulk += 1;
+                    }
+                    4 => {
+                        let n = t.below(20);
+                        let v: Vec<i32> = (0..n).map(|_| t.u32() as i32).collect();
+                        let ok: Vec<bool> = (0..n).map(|_| t.chance(180)).collect();
+                        b.append_values(&v, &ok);
+                        model.extend(v.iter().zip(&ok).map(|(x, k)| if *k { LValue::Int(*x as i128) } else { LValue::Null }));
+                        ops.push(format!("append_values({})", n));
+                        bulk += 1;
+                    }
+                    5 | 6 => {
+                        let n = t.below(20);
+                        let col = gen_column(t, &ty, true, n, &ValCfg::default());
+                        let a = realise(t, &ty, &col, true, &lay);
+                        b.append_array(a.as_any().downcast_ref::<Int32Array>().unwrap());
+                        model.extend(col);
+                        ops.push(format!("append_array({})", n));
+                        bulk += 1;
+                    }
+                    7 => {
+                        let n = t.below(10);
+                        let v: Vec<Option<i32>> = (0..n).map(|_| if t.chance(200) { Some(t.u32() as i32) } else { None }).collect();
+                        b.extend(v.iter().cloned());
+                        model.extend(v.iter().map(|x| x.map(|x| LValue::Int(x as i128)).unwrap_or(LValue::Null)));
+                        ops.push(format!("extend({})", n));
+                    }
+                    _ => {
+                        let v = t.u32() as i32;
+                        b.append_value(v);
+                        model.push(LValue::Int(v as i128));
+                        ops.push("value".into());
+                    }
+                }
+            }
+            fin!(b, 1);
+            "Int32Builder"
+        }
+        3 => {
+            let ty = LType::Bool;
+            let mut b = BooleanBuilder::new();
+            for _ in 0..nops {
+                match t.below(10) {
+                    0 => {
+                        let n = t.below(70);
+                        b.append_nulls(n);
+                        model.extend(std::iter::repeat(LValue::Null).take(n));
+                        ops.push(format!("append_nulls({})", n));
+                        bulk += 1;
+                    }
+                    1 => fin!(b, t.below(2)),
+                    2 => {
+                        let n = t.below(70);
+                        let v = t.bool();
+                        b.append_n(n, v);
+                        model.extend(std::iter::repeat(LValue::Bool(v)).take(n));
+                        ops.push(format!("append_n({})", n));
+                        bulk += 1;
+                    }
+                    3 => {
+                        let n = t.below(20);
+                        let v: Vec<bool> = (0..n).map(|_| t.bool()).collect();
+                        b.append_slice(&v);
+                        model.extend(v.iter().map(|x| LValue::Bool(*x)));
+                        ops.push(format!("append_slice({})", n));
+                        bulk += 1;
+                    }
+                    4 => {
+                        let n = t.below(20);
+                        let v: Vec<bool> = (0..n).map(|_| t.bool()).collect();
+                        let ok: Vec<bool> = (0..n).map(|_| t.chance(180)).collect();
+                        b.append_values(&v, &ok).unwrap();
+                        model.extend(v.iter().zip(&ok).map(|(x, k)| if *k { LValue::Bool(*x) } else { LValue::Null }));
+                        ops.push(format!("append_values({})", n));
+                        bulk += 1;
+                    }
+                    5 | 6 => {
+                        let n = t.below(80);
+                        let col = gen_column(t, &ty, true, n, &ValCfg::default());
+                        let a = realise(t, &ty, &col, true, &lay);
+                        b.append_array(a.as_any().downcast_ref::<BooleanArray>().unwrap());
+                        model.extend(col);
+                        ops.push(format!("append_array({})", n));
+                        bulk += 1;
+                    }
+                    _ => {
+                        let v = t.bool();
+                        b.append_value(v);
+                        model.push(LValue::Bool(v));
+                        ops.push("value".into());
+                    }
+                }
+            }
+            fin!(b, 1);
+            "BooleanBuilder"
+        }
+        4 => {
+            let large = t.bool();
+            let ty = LType::Utf8(if large { Enc::O64 } else { Enc::O32 });
+            macro_rules! run {
+                ($B:ty, $A:ty) => {{
+                    let mut b = <$B>::new();
+                    for _ in 0..nops {
+                        match t.below(10) {
+                            0 => {
+                                let n = t.below(40);
+                                b.append_nulls(n);
+                                model.extend(std::iter::repeat(LValue::Null).take(n));
+                                ops.push(format!("append_nulls({})", n));
+                                bulk += 1;
+                            }
+                            1 => fin!(b, t.below(2)),
+                            2 => {
+                                let n = t.below(20);
+                                let v = gen_string(t, 20);
+                                b.append_value_n(&v, n);
+                                model.extend(std::iter::repeat(LValue::Str(v.clone())).take(n));
+                                ops.push(format!("append_value_n({})", n));
+                                bulk += 1;
+                            }
+                            3 | 4 | 5 => {
+                                let n = t.below(20);
+                                let col = gen_column(t, &ty, true, n, &ValCfg::default());
+                                let a = realise(t, &ty, &col, true, &lay);
+                                b.append_array(a.as_any().downcast_ref::<$A>().unwrap()).unwrap();
+                                model.extend(col);
+                                ops.push(format!("append_array({})", n));
+                                bulk += 1;
+                            }
+                            6 => {
+                                let n = t.below(6);
+                                let v: Vec<Option<String>> = (0..n).map(|_| if t.chance(200) { Some(gen_string(t, 20)) } else { None }).collect();
+                                b.extend(v.iter().cloned());
+                                model.extend(v.iter().map(|x| x.clone().map(LValue::Str).unwrap_or(LValue::Null)));
+                                ops.push(format!("extend({})", n));
+                            }
+                            _ => {
+                                let v = gen_string(t, 30);
+                                b.append_value(&v);
+                                model.push(LValue::Str(v));
+                                ops.push("value".into());
+                            }
+                        }
+                    }
+                    fin!(b, 1);
+                }};
+            }
+            if large {
+                run!(LargeStringBuilder, LargeStringArray);
+                "LargeStringBuilder"
+            } else {
+                run!(StringBuilder, StringArray);
+                "StringBuilder"
+            }
+        }
+        _ => {
+            let w = 1 + t.below(5) as i32;
+            let ty = LType::FixedBinary(w);
+            let mut b = FixedSizeBinaryBuilder::new(w);
+            for _ in 0..nops {
+                match t.below(8) {
+                    0 => {
+                        let n = t.below(40);
+                        b.append_nulls(n);
+                        model.extend(std::iter::repeat(LValue::Null).take(n));
+                        ops.push(format!("append_nulls({})", n));
+                        bulk += 1;
+                    }
+                    1 => fin!(b, t.below(2)),
+                    2 | 3 | 4 => {
+                        let n = t.below(20);
+                        let col = gen_column(t, &ty, true, n, &ValCfg::default());
+                        let a = realise(t, &ty, &col, true, &lay);
+                        b.append_array(a.as_any().downcast_ref::<FixedSizeBinaryArray>().unwrap()).unwrap();
+                        model.extend(col);
+                        ops.push(format!("append_array({})", n));
+                        bulk += 1;
+                    }
+                    5 => {
+                        // wrong width must be rejected and leave the builder unchanged
+                        let v = t.bytes(w as usize + 1);
+                        ensure!(b.append_value(&v).is_err(), "FixedSizeBinaryBuilder:wrong-width-accepted", "append_value of {} bytes accepted by a width-{} builder", v.len(), w);
+                        ops.push("wrong-width".into());
+                    }
+                    _ => {
+                        let v = t.bytes(w as usize);
+                        b.append_value(&v).unwrap();
+                        model.push(LValue::Bytes(v));
+                        ops.push("value".into());
+                    }
+                }
+            }
+            fin!(b, 1);
+            "FixedSizeBinaryBuilder"
+        }
+    };
+    c.class(format!("builder:{}", name));
+    if bulk >= 2 {
+        c.class("bulk-ops>=2");
+    }
+    c.describe(json!({"builder": name, "ops": ops, "finishes": finished.len()}));
+    for (a, want) in &finished {
+        let what = format!("{}:bulk", name);
+        check_valid(a.as_ref(), &what)?;
+        let got = no_panic("extract", || extract(a.as_ref()))?;
+        if let Some(i) = first_diff(&got, want) {
+            return Err(Fail::new(format!("{}:row", what), format!("{} row {}: {:?} expected {:?} after {:?}", name, i, got.get(i).map(|v| v.short()), want.get(i).map(|v| v.short()), ops)));
+        }
+        accessor_walk(a, &what)?;
+        c.eval();
+    }
+    if bulk >= 2 && nops >= 4 {
+        c.nontrivial();
+    }
+    Ok(())
+}
+
 /// record batch construction / projection / slicing
 fn sub_batches(c: &mut Case) -> CaseResult {
     let ncols = c.tape.below(5);
@@ -403,6 +761,7 @@ fn main() {
     .sub(Sub::new("pipelines", 60000, 1500000, sub_pipelines).tape(512, 12000).require(&["stages-completed:3", "source:dictionary", "source:runend", "source:union", "source:view", "source:listview"]))
     .sub(Sub::new("mutable_array_data", 20000, 400000, sub_mutable).tape(256, 8000))
     .sub(Sub::new("builders", 20000, 400000, sub_builders).tape(64, 3000))
+    .sub(Sub::new("bulk_builders", 30000, 600000, sub_bulk_builders).tape(128, 6000).require(&["bulk-ops>=2", "builder:StringViewBuilder", "builder:BinaryViewBuilder"]))
     .sub(Sub::new("record_batch", 10000, 200000, sub_batches).tape(256, 12000))
     .run()
 }
